@@ -238,7 +238,7 @@ def maxLen (secs : List Sec) : Nat := secs.foldl (fun m s => max m s.bytes.lengt
 def writeBigWigZ (o : Opts) (z : Blobs) (input : List (List Nat × Nat × List V)) : List Nat × Bool :=
   let preData := 64 + 240 + 40 + 8
   -- data sections, chromosome ids in order of appearance
-  let dataSecs0 := input.zipIdx.flatMap fun (c, id) => cutSections o.itemsPerSlot id (c.2.2.length + 1) c.2.2
+  let dataSecs0 := input.zipIdx.flatMap fun (c, id) => cutSections (min o.itemsPerSlot 65535) id (c.2.2.length + 1) c.2.2   -- a section's item count is 16 bits wide (D22)
   let (dataSecs, z1, ok1) := substBlobs z dataSecs0
   let (dataLeaves, dataEnd) := leavesOf dataSecs preData
   let dataBytes := dataSecs.flatMap (·.bytes)
